@@ -78,6 +78,7 @@ func (s *vmtStore) ListNodeWorks(cids []crypto.Hash, day uint32) (map[crypto.Has
 
 type vmtWorld struct {
 	n      int
+	tag    string // seed-derived label: every derived hash depends on it, never on the temp dir
 	dir    string
 	store  *storage.BadgerStore
 	wrap   *vmtStore
@@ -94,7 +95,7 @@ func vmtNewWorld(t *testing.T, n int, tag string) *vmtWorld {
 	if err != nil {
 		t.Fatal(err)
 	}
-	w := &vmtWorld{n: n, dir: dir, rounds: map[crypto.Hash]uint64{}}
+	w := &vmtWorld{n: n, tag: tag, dir: dir, rounds: map[crypto.Hash]uint64{}}
 	nodes := make([]map[string]string, 0)
 	var first common.Address
 	for i := 0; i < n; i++ {
